@@ -261,12 +261,53 @@ theorem appendP_safe (hc : CfgOK c) {s : FStr} (hs : WF c s) {a : List Byte} (ha
   unfold appendP; rw [h1, bindR_ok]
   exact appendImpl_safe hc hs (by omega)
 
-theorem sprintf_safe (hc : CfgOK c) {s : FStr} (hs : WF c s) (text : Str) : OkWF c (sprintf c s text) := by
+/-- `sprintf`, FixedString's own code: whatever `vsnprintf` returned — a length, a length beyond the capacity or beyond
+    the length type, or a NEGATIVE value (error) — and whatever it left in the `L + 1` bytes it was given, the string is
+    well-formed afterwards. -/
+theorem sprintfV_safe (hc : CfgOK c) {s : FStr} (hs : WF c s) (written : Str) (hw : written.length ≤ c.L + 1)
+    (result : Int) : OkWF c (sprintfV c s written result) := by
   obtain ⟨hb, hl, h0⟩ := hs
-  unfold sprintf
-  simp only
-  have h1 : min text.length c.L ≤ c.L := Nat.min_le_right _ _
-  apply okwf_bind (good_write hb (by simp; omega)); intro b hb1
-  exact okwf_finish hc hb1 (Nat.min_le_left _ _)
+  unfold sprintfV
+  apply okwf_bind (good_write hb (by omega)); intro b hb1
+  apply okwf_finish hc hb1
+  split
+  · exact Nat.zero_le _
+  · exact Nat.min_le_left _ _
+
+/-- what `sprintf` leaves, for any formatter: the length is 0 for a negative result and `min( L, result)` otherwise, and
+    the characters in front of the terminator are the ones the formatter wrote -/
+theorem sprintfV_content (hc : CfgOK c) {s s' : FStr} (hs : WF c s) (written : Str) (hw : written.length ≤ c.L + 1)
+    (result : Int) (h : sprintfV c s written result = .ok s') :
+    s'.len = (if result < 0 then 0 else min c.L result.toNat) ∧
+      (s'.len ≤ written.length → s'.buf.take s'.len = written.take s'.len) := by
+  obtain ⟨hb, hl, h0⟩ := hs
+  have hn : (if result < 0 then 0 else min c.L result.toNat) ≤ c.L := by
+    split
+    · exact Nat.zero_le _
+    · exact Nat.min_le_left _ _
+  unfold sprintfV at h
+  generalize (if result < 0 then 0 else min c.L result.toNat) = n at hn h ⊢
+  rw [Mem.write_ok (by omega), bindR_ok] at h
+  unfold finish put1 at h
+  rw [narrow_eq hc hn, Mem.write_ok (by
+    simp only [List.length_append, List.length_take, List.length_drop, List.length_cons, List.length_nil]; omega),
+    bindR_ok] at h
+  cases h
+  refine ⟨rfl, fun hle => ?_⟩
+  simp only [List.take_zero, List.nil_append, Nat.zero_add]
+  rw [List.append_assoc, List.take_left' (by
+    rw [List.length_take, List.length_append, List.length_drop]; omega)]
+  exact List.take_append_of_le_length hle
+
+theorem vsnOut_length (c : Cfg) (text : Str) : (vsnOut c text).length ≤ c.L + 1 := by
+  unfold vsnOut
+  rw [List.length_append, List.length_take, List.length_singleton]
+  omega
+
+theorem sprintfF_safe (hc : CfgOK c) {s : FStr} (hs : WF c s) (f : Fmt) : OkWF c (sprintfF c s f) :=
+  sprintfV_safe hc hs _ (vsnOut_length c _) _
+
+theorem sprintf_safe (hc : CfgOK c) {s : FStr} (hs : WF c s) (text : Str) : OkWF c (sprintf c s text) :=
+  sprintfF_safe hc hs (.done text)
 
 end CelmaVerif.FixedString
